@@ -1,7 +1,69 @@
-(* C20 property theorems: statements only, each closed by [exact]. *)
+(* C20 property theorems: statements only, each closed by [exact].
+   w = int(1/threshold) >= 1 is the bucket width; ks is the whole stream of additions
+   (update with an iterable, a mapping or kwargs expands to additions: op_keys). *)
 From Boltons Require Import Lib.Prelude Model.C20_Model Spec.C20_Spec Proofs.C20_Proofs.
 Open Scope N_scope.
 
+(* total equals the number of additions *)
 Theorem C20_total : forall w ks, tc_total (tc_adds (tc_init w) ks) = N.of_nat (length ks).
 Proof. exact total_counts_additions. Qed.
 Print Assumptions C20_total.
+
+(* a reported count never exceeds the true count (untracked keys report 0) *)
+Theorem C20_never_over : forall w ks k, 1 <= w ->
+  tc_get (tc_adds (tc_init w) ks) k <= true_count ks k.
+Proof. exact never_over. Qed.
+Print Assumptions C20_never_over.
+
+(* ... and falls short of it by at most total/w = floor(total * threshold') *)
+Theorem C20_under_bounded : forall w ks k, 1 <= w ->
+  true_count ks k - tc_get (tc_adds (tc_init w) ks) k <= N.of_nat (length ks) / w.
+Proof. exact under_bounded. Qed.
+Print Assumptions C20_under_bounded.
+
+(* every key whose true count exceeds the slack is present *)
+Theorem C20_heavy_present : forall w ks k, 1 <= w ->
+  N.of_nat (length ks) / w < true_count ks k -> d_mem (tc_map (tc_adds (tc_init w) ks)) k = true.
+Proof. exact heavy_tracked. Qed.
+Print Assumptions C20_heavy_present.
+
+Theorem C20_common_uncommon : forall w ks, 1 <= w ->
+  let s := tc_adds (tc_init w) ks in tc_common s + tc_uncommon s = tc_total s.
+Proof. exact common_plus_uncommon. Qed.
+Print Assumptions C20_common_uncommon.
+
+Theorem C20_bucket : forall w ks, 1 <= w ->
+  tc_bucket (tc_adds (tc_init w) ks) = N.of_nat (length ks) / w + 1.
+Proof. exact bucket_formula. Qed.
+Print Assumptions C20_bucket.
+
+(* The refinement used by the correspondence check: for every bucket width, every history of
+   public operations and every prefix of it, the model's complete public observation (total,
+   items, common/uncommon, most_common() and most_common(n), len, get, keys, values, elements)
+   satisfies exactly the predicate [spec_core] that [holds] evaluates on the implementation's
+   observations: counts never over, under by at most the slack, heavy keys present, no duplicate
+   key, common+uncommon = total, views consistent, most_common sorted descending and a prefix. *)
+Theorem C20_refines_spec_partial : forall w ops i n probe, 1 <= w ->
+  let pre := firstn i ops in
+  let o := observe (fold_left tc_step pre (tc_init w)) n probe in
+  spec_core w (flat_map op_keys pre) (o_total o) (o_items o) (o_common o) (o_uncommon o)
+            (o_mc_all o) (o_mc_n o) n (o_len o) probe (o_probe o) (o_keys o) (o_values o) (o_elems o) = true.
+Proof. exact history_meets_spec. Qed.
+Print Assumptions C20_refines_spec_partial.
+(* FULL statement (not provable, see next theorem): the above conjoined with
+   [spec_size (2/threshold) (o_len o) = true], i.e. at most 2/threshold tracked keys. *)
+
+(* the size clause "at most 2/threshold keys" is false of the algorithm: threshold 1/60,
+   299 additions, 136 > 120 tracked keys (open known finding C20-size) *)
+Theorem C20_size_refuted : exists ks, 2 * 60 < tc_len (tc_adds (tc_init 60) ks).
+Proof. exact size_refuted. Qed.
+Print Assumptions C20_size_refuted.
+
+(* hypotheses are inhabited by a non-trivial state: w = 3, a stream with a heavy key,
+   compactions, an evicted key and a re-inserted key *)
+Example C20_nontrivial_state :
+  let ks := [1;2;1;3;1;4;2;1;5;6;1;7]%nat in
+  let s := tc_adds (tc_init 3) ks in
+  1 <= 3 /\ tc_total s = 12 /\ tc_bucket s = 5 /\ tc_items s = [(1%nat, 5)] /\
+  tc_get s 2%nat = 0 /\ true_count ks 2%nat = 2 /\ tc_uncommon s = 7.
+Proof. vm_compute. repeat split; try reflexivity. discriminate. Qed.
